@@ -1108,7 +1108,7 @@ class NPProxy:
     def empty(self, shape, dtype=float, order="C"):
         if not active_ctx():
             return real_np.empty(shape, dtype, order)
-        if isinstance(shape, (builtins.int, real_np.integer)):
+        if isinstance(shape, (builtins.int, real_np.integer, SInt, SBV)):
             shape = (shape,)
         shape = tuple(s.__index__() if isinstance(s, (SInt, SBV)) else builtins.int(s) for s in shape)
         dtype = real_np.dtype(_unwrap_dtype(dtype))
